@@ -123,10 +123,10 @@ def finish(ctx, mod, status, message, wall, repo, verif, known, verbose=False):
         'message': message,
         'explanation': 'contract-based deductive verification: verification conditions generated by symbolic '
                        'execution of the ast of /repo/src on this run, discharged by z3 (cvc5 / z3 4.8.12 as second '
-                       'opinion); see DESIGN.md',
+                       'opinion); see DESIGN.md.  ' + getattr(ctx, 'level_explanation', ''),
     }
     from .cli import ASSUMED_SEMANTICS
-    ev = {'property_id': prop, 'tier': ctx.tier, 'seed': ctx.seed, 'level': 'proof', 'coverage': cov,
+    ev = {'property_id': prop, 'tier': ctx.tier, 'seed': ctx.seed, 'level': getattr(ctx, 'level', 'proof'), 'coverage': cov,
           'assumptions': ASSUMED_SEMANTICS + ctx.assumptions, 'wall_s': round(wall, 2),
           'violations': len(violations)}
     json.dump(ev, open(os.path.join(verif, 'evidence', f'{prop}.json'), 'w'), indent=1, default=str)
@@ -201,8 +201,8 @@ def run_native(rep, repo, verif):
     env = dict(os.environ, PYTHONPATH=os.path.join(repo, 'src') + os.pathsep + verif, DZNPY_TREE=repo,
                PYTHONDONTWRITEBYTECODE='1')
     try:
-        p = subprocess.run(['/venv/bin/python', script, json.dumps(rep.get('input'), default=str)],
-                           capture_output=True, text=True, timeout=120, env=env, cwd=verif)
+        p = subprocess.run(['/venv/bin/python', script, '-'], input=json.dumps(rep.get('input'), default=str),
+                           capture_output=True, text=True, timeout=300, env=env, cwd=verif)
     except Exception as e:
         return None, f'replay failed to run: {e}'
     out = (p.stdout + p.stderr)[-3000:]
